@@ -337,8 +337,12 @@ TProbe ==
                      ELSE {}
          v8 == IF Ev.open_ok /\ Ev.quiet /\ deadLogs # {}
                THEN ObsViol(<<"C11">>, "CrashDeadLogKept", [keys |-> SetToSeq(deadLogs), at |-> Ev.j])
-               ELSE <<>> IN
-     JudgeAnd((((((((v0 \o v1) \o v2) \o v3) \o v4) \o v5) \o v6) \o v7) \o v8)
+               ELSE <<>>
+         \* ... and the shape reported after the NEXT reopen (which reads what the recovery of the
+         \* crash image left in the manifest)
+         v9 == IF Ev.open_ok /\ Ev.reopen_ok /\ ~WellFormedVer(ToVer(Ev.levels2), files, NL)
+               THEN ObsViol(<<"C10">>, "CrashIllFormedAfterReopen", det) ELSE <<>> IN
+     JudgeAnd(((((((((v0 \o v1) \o v2) \o v3) \o v4) \o v5) \o v6) \o v7) \o v8) \o v9)
   /\ Step(FALSE, "")
   /\ UNCHANGED <<coreVars, runInfo, keep, lastIter, manNo, isOpen, flushed, gpins, deferred,
                  ackStore, inflight>>
